@@ -2782,7 +2782,9 @@ class Env(cabc.MutableMapping):
         # ``_set_item`` assigns the ``sync`` twin of a variable as well
         twin = self._vars[key].sync if key in self._vars else ""
         for name in (key, twin) if twin else (key,):
-            old[name] = local.get(name, NotImplemented)
+            # (a variable given twice - in the dict and in the keyword
+            # arguments of ``swap`` - keeps its first capture)
+            old.setdefault(name, local.get(name, NotImplemented))
 
     @contextlib.contextmanager
     def swap(self, other=None, overlay=None, **kwargs):
